@@ -32,6 +32,7 @@ open Cascette.Props.C16
 #print axioms chunked_patch_bytes_roundtrip
 #print axioms suffix_patch_bytes_roundtrip
 #print axioms suffix_real_patch_bytes_roundtrip
+#print axioms suffix_any_block_size_patch_bytes_roundtrip
 #print axioms build_bytes_total
 #print axioms apply_patch_bytes_length_or_error
 #print axioms patch_bytes_patchers_agree
@@ -60,5 +61,6 @@ open Cascette.Props.C16
 #print axioms Cascette.Proofs.ZbsdiffTie.chunked_params_tie
 #print axioms Cascette.Proofs.ZbsdiffTie.chunked_step_tie
 #print axioms Cascette.Proofs.ZbsdiffTie.default_block_tie
+#print axioms Cascette.Proofs.ZbsdiffTie.optimized_builder_tie
 #print axioms Cascette.Proofs.ZbsdiffTie.buffer_tie
 #print axioms Cascette.Proofs.ZbsdiffTie.block_order_tie
